@@ -338,6 +338,19 @@ def check_plot(case):
             return BAD("is_shaded_cell", {"cell": c})
     if tuple(M.get_perm()) != p or len(M) != k:
         return BAD("get_perm", {})
+    # region tests: every rectangle of boxes, against the definitions
+    if k <= 4:
+        for left in range(k + 1):
+            for right in range(left, k + 1):
+                for lower in range(k + 1):
+                    for upper in range(lower, k + 1):
+                        want_sh = all((x, y) in sh for x in range(left, right + 1) for y in range(lower, upper + 1))
+                        if M.is_shaded((left, lower), (right, upper)) != want_sh:
+                            return BAD("is_shaded_rectangle", {"rect": [left, lower, right, upper], "want": want_sh})
+                        # points strictly inside the region spanned by the boxes
+                        want_free = not any(left <= i < right and lower <= p[i] < upper for i in range(k))
+                        if M.is_pointfree((left, lower), (right, upper)) != want_free:
+                            return BAD("is_pointfree_rectangle", {"rect": [left, lower, right, upper], "want": want_free})
     return OK(bool(sh) and len(p) >= 1, "plot")
 
 
@@ -414,6 +427,10 @@ def shard_generated(acc, shard, nshards, n_lemma, n_add, n_plot, extra):
     engine.hyp_run(acc, "plot", check_plot, gen.mesh_patterns(0, 5).map(lambda M: {"M": M}), n_plot, shard)
 
 
+# coverage-guided variants of the structured generators (thorough tier, pv/fuzz/target.py hyp:<name>)
+FUZZ = {"add_point": ("add_point", add_point_cases)}
+
+
 def run(acc, tier):
     if tier == "quick":
         engine.pmap(acc, shard_exhaustive, extra=(1, 2))
@@ -421,3 +438,4 @@ def run(acc, tier):
     else:
         engine.pmap(acc, shard_exhaustive, extra=(1, 3))
         engine.pmap(acc, shard_generated, extra=(300, 300, 600, 3))
+        engine.fuzz(acc, "hyp:add_point", CHECKS, 1500, max_len=2048)
